@@ -26,7 +26,15 @@ def run(ctx):
                          "prefix pairs differing by one character are skipped (%s): an inserted or deleted letter "
                          "can never match" % g.describe(), {"witness": "title 'bcdfg', query 'bcxdfg'"})
     RJ.failed_attempt_is_pure(ctx, "R04.f")
+    from . import r_trigram as RT
+    from . import r_token as RK
+    RT.grams_from_whole_words(ctx, "R04.h")
+    RT.shared_generator(ctx, "R04.h")
+    RK.lower_rules(ctx, "R04.i")
     RC17.chain_rule(ctx, "R04.g")
+    from . import C10 as RC10
+    from . import r_state as RS
+    RC10.hidden_state_inventory(ctx, "R10.e", RS.reset_before_read(ctx, None))
     RC20.buffer_rules(ctx, None, None, "R20.f")
     return info("Necessary constants for single-typo tolerance at the n=5 worst cases: length gate accepts 1-5/6, "
                 "Jaccard gate accepts 1/2, the DL gate accepts c/5 for every edit-cost constant c, every cost <= 1.0, "
